@@ -39,6 +39,29 @@ def _qual(modname: str, cls: Optional[str], name: str) -> str:
     return f"{modname}:{cls + '.' if cls else ''}{name}"
 
 
+def _return_chain_expr(body: List[ast.stmt]) -> Optional[ast.expr]:
+    """the value of a body that consists only of `if c: return e` guards (with optional else-chains) and a final `return e`"""
+    if not body:
+        return None
+    st = body[0]
+    if isinstance(st, ast.Return):
+        return st.value if st.value is not None and len(body) == 1 else (st.value if st.value is not None else None)
+    if isinstance(st, ast.If):
+        a = _return_chain_expr(st.body)
+        if a is None:
+            return None
+        if st.orelse:
+            b = _return_chain_expr(st.orelse)
+            if b is None or len(body) != 1:
+                return None
+        else:
+            b = _return_chain_expr(body[1:])
+            if b is None:
+                return None
+        return ast.IfExp(test=st.test, body=a, orelse=b)
+    return None
+
+
 class _Helper:
     def __init__(self, modname, cls, node: ast.FunctionDef):
         self.modname = modname
@@ -51,6 +74,11 @@ class _Helper:
         self.last_kwmap: Dict[str, ast.expr] = {}
         self.ok = self._inlinable(decos)
         body = [s for s in node.body if not (isinstance(s, ast.Expr) and isinstance(s.value, ast.Constant) and isinstance(s.value.value, str))]
+        # a chain of guard returns is one conditional expression:  if a: return x / if b: return y / return z  ==  x if a else (y if b else z)
+        chain_expr = _return_chain_expr(body)
+        if chain_expr is not None and len(body) > 1:
+            body = [ast.copy_location(ast.Return(value=chain_expr), body[0])]
+            ast.fix_missing_locations(body[0])
         self.body = body
         rets = [n for n in _walk_own(node, True) if isinstance(n, ast.Return)]
         self.n_returns = len(rets)
